@@ -131,6 +131,7 @@ static uint64_t *explicit_arr = NULL; static size_t explicit_n = 0;
 #define TAIL 80
 #define OOB 0x4141414141414141ULL
 
+static size_t xpos(int pat, size_t n) { size_t p = pat == 11 ? 7 : pat == 12 ? n / 2 : (n >= 3 ? n - 3 : 0); return p >= n ? n - 1 : p; }
 /* n values followed by TAIL sentinels */
 static uint64_t *gen(char ty, int pat, size_t n, uint64_t seed)
 {
@@ -150,6 +151,14 @@ static uint64_t *gen(char ty, int pat, size_t n, uint64_t seed)
                 case 7: v = dbits((double)(r % 1000003)); break;
                 case 9: v = (r % 64 == 0) ? 0x3FF0000000000000ULL : 0x4000000000000000ULL; break;
                 case 10: v = (i > 0 && (i % 40 < 16 || i % 40 >= 32)) ? 0x4000000000000000ULL : 0x3FF0000000000000ULL; break;
+                case 11: case 12: case 13: {
+                    size_t pos = xpos(pat, n);
+                    if (i == pos) v = (seed & 1) == 0 ? 0x7FF0000000000000ULL : dbits(1e300);
+                    else if (i == pos + 1) v = (seed & 1) == 1 ? 0xFFF0000000000000ULL : dbits(-1e300);
+                    else v = dbits((double)((long)(r % 2001) - 1000));
+                    break; }
+                case 14: { size_t j = (i == n / 3) ? 2 * n / 3 : (i == 2 * n / 3) ? n / 3 : i; v = 0x3FF0000000000000ULL + (uint64_t)(j * 0x10000000ULL + sd); break; }
+                case 15: { size_t j = (i == n - 1) ? 0 : i + 1; v = 0x3FF0000000000000ULL + (uint64_t)(j * 0x10000000ULL + sd); break; }
                 default: v = explicit_arr[i]; break;
             }
         } else {
@@ -164,6 +173,14 @@ static uint64_t *gen(char ty, int pat, size_t n, uint64_t seed)
                 case 7: v = r % 1000003; break;
                 case 9: v = (r % 64 == 0) ? 5 : 9; break;
                 case 10: v = (i > 0 && (i % 40 < 16 || i % 40 >= 32)) ? 2 : 1; break;
+                case 11: case 12: case 13: {
+                    size_t pos = xpos(pat, n);
+                    if (i == pos) v = (uint64_t)(1000000 + (long)sd);
+                    else if (i == pos + 1) v = (uint64_t)(-(1000000 + (long)sd));
+                    else v = (uint64_t)((long)(r % 2001) - 1000);
+                    break; }
+                case 14: { size_t j = (i == n / 3) ? 2 * n / 3 : (i == 2 * n / 3) ? n / 3 : i; v = j * 7919 + sd; break; }
+                case 15: { size_t j = (i == n - 1) ? 0 : i + 1; v = j * 7919 + sd; break; }
                 default: v = explicit_arr[i]; break;
             }
         }
